@@ -876,6 +876,18 @@ func genResets(r *rand.Rand, id string, tier string) string {
 func genXferRO(r *rand.Rand, id string, tier string) string {
 	nextLeaf = 0
 	src := genStackLit(r, Cfg{Kind: kinds(r), Fifo: r.Intn(2) == 0}, 1+r.Intn(4), true)
+	if r.Intn(2) == 0 {
+		// the read-only instance is the SOURCE: whatever becomes of the call (a destination that is too small, one that
+		// fits, a read-only one), the source stays exactly as it was - its recorded error included
+		src.Cfg.Opt |= fRO
+		if r.Intn(3) == 0 {
+			src.Cfg.Err = 7
+		}
+		dc := Cfg{Kind: kinds(r), Cap: 1 + r.Intn(len(src.Xs)+1)}
+		dest := genStackLit(r, dc, r.Intn(dc.Cap+1), true)
+		dest.Form = []string{"n", "n", "a", "p"}[r.Intn(4)]
+		return src.String() + " | xfer " + dest.String() + " ; push i77"
+	}
 	dc := Cfg{Kind: kinds(r), Opt: fRO}
 	if r.Intn(2) == 0 {
 		dc.Cap = 2 + r.Intn(6)
